@@ -1,13 +1,40 @@
 // U-sched: the scheduler core under contract (C01-C06, C08, C15, C16, C19 function-level parts).
 //@@ unit U-sched
 //@@ default props=C02 rewrites=R1,R2,R3,R5,R13 ghost="Tracked(h): Tracked<&mut Heap>" ghostarg="Tracked(h)" loopinv="h.wf(), fwd(*old(h), *h)," bodyprelude="broadcast use {lemma_fwd_refl, lemma_fwd_trans, axiom_flag_as_bool};" attr="#[verifier::exec_allows_no_decreases_clause] #[verifier::loop_isolation(false)]"
-//@@ heapmethods state set_state set_err err children children_in next parent siblings task set_task sched_task emit_task_event emit_proc_event eval init run review error exec is_ready emit_task emit_error create_task push root set_data flag set_flag prev start_time update_data outputs is_event_processed prepare is_auto_complete abort_task back_task undo_task redo_task action set_action get_var get_var_or_default dispatch_act backs backs_step create_context set_message_with update arm_cancel do_action dispatch time_millis hooks_snapshot flag_or_false run_hooks_by run_hooks find run_hooks_timeout is_emit_disabled create_message emit_message upsert
+//@@ heapmethods state set_state set_err err children children_in next parent siblings task set_task sched_task emit_task_event emit_proc_event eval init run review error exec is_ready emit_task emit_error create_task push root set_data flag set_flag prev start_time update_data outputs is_event_processed prepare is_auto_complete abort_task back_task undo_task redo_task action set_action get_var get_var_or_default dispatch_act backs backs_step create_context set_message_with update arm_cancel do_action dispatch time_millis hooks_snapshot flag_or_false run_hooks_by run_hooks find run_hooks_timeout add_hook_stmts add_hook_catch add_hook_timeout params build_acts dispatch_acts set_emit_disabled set_auto_complete is_emit_disabled create_message emit_message upsert
 use vstd::prelude::*;
 use std::sync::Arc;
 verus! {
 //@@ include prelude/std_specs.rs
 //@@ include prelude/sched.rs
 
+pub open spec fn flag_is(t: TaskAbs, k: Seq<char>, default: bool) -> bool { if t.flags.dom().contains(k) { t.flags[k] } else { default } }
+impl Task {
+//@@ extract file=acts/src/scheduler/process/task.rs in="impl Task" item="fn set_emit_disabled" name=Task::set_emit_disabled props=C08
+//@@ rw R6 `self . set_data_with ( move | data | { data . set ( $K , v ) ; } ) ;` => `self.set_flag($K, v);`
+//@@ proof at=start
+        proof { lemma_flag_keys(); }
+//@@ spec
+        requires old(h).wf(), old(h).has(self.id@)
+        ensures
+            //# M4-emit-disabled-set
+            *final(h) == (Heap { tasks: old(h).tasks.insert(self.id@, TaskAbs { flags: old(h).tasks[self.id@].flags.insert(consts::TASK_EMIT_DISABLED@, v), ..old(h).tasks[self.id@] }), ..*old(h) }),
+            //# M4-frame
+            final(h).wf() && fwd(*old(h), *final(h)) && final(h).cur == old(h).cur,
+//@@ end
+//@@ extract file=acts/src/scheduler/process/task.rs in="impl Task" item="fn set_auto_complete" name=Task::set_auto_complete props=C15
+//@@ rw R6 `self . set_data_with ( move | data | { data . set ( $K , v ) ; } ) ;` => `self.set_flag($K, v);`
+//@@ proof at=start
+        proof { lemma_flag_keys(); }
+//@@ spec
+        requires old(h).wf(), old(h).has(self.id@)
+        ensures
+            //# B5-auto-complete-set
+            *final(h) == (Heap { tasks: old(h).tasks.insert(self.id@, TaskAbs { flags: old(h).tasks[self.id@].flags.insert(consts::TASK_AUOT_COMPLETE@, v), ..old(h).tasks[self.id@] }), ..*old(h) }),
+            //# B5-frame
+            final(h).wf() && fwd(*old(h), *final(h)) && final(h).cur == old(h).cur,
+//@@ end
+}
 pub open spec fn sib_set(h: Heap, t: Tid) -> Set<Tid> {
     if parent_tid(t) is Some { children_of(h, parent_tid(t)->Some_0).remove(t) } else { Set::empty() }
 }
@@ -108,6 +135,8 @@ impl Context {
 //@@ end
 //@@ extract file=acts/src/scheduler/context.rs in="impl Context" item="fn emit_task" name=Context::emit_task props=C02,C03,C08
 //@@ rw R7 `self . runtime . scher ( )` => `self.runtime.scher()`
+//@@ proof at=start
+        proof { reveal(Heap::wf); }
 //@@ spec
         requires old(h).wf(), wf_task(*old(h), **task)
         ensures
@@ -123,6 +152,24 @@ impl Context {
         ensures
             //# E2-emit-error-fwd
             final(h).wf() && fwd(*old(h), *final(h)),
+//@@ end
+//@@ extract file=acts/src/scheduler/context.rs in="impl Context" item="fn dispatch_acts" name=Context::dispatch_acts props=C16
+//@@ opt rewrites=R1,R2,R3,R5,R13,R22 noheap=push
+//@@ rw R7 `super :: TaskLifeCycle` => `TaskLifeCycle`
+//@@ rw R7 `crate :: ActEvent` => `ActEvent`
+//@@ rw R7 `let mut normal_acts = vec ! [ ] ;` => `let mut normal_acts: Vec<Act> = Vec::new();`
+//@@ spec
+        requires old(h).wf()
+        ensures
+            //# G4-dispatch-acts-frame
+            final(h).wf() && fwd(*old(h), *final(h)) && final(h).cur == old(h).cur && final(h).tasks == old(h).tasks && final(h).queue == old(h).queue,
+            //# G4-only-the-current-tasks-hooks-change
+            forall|t: Tid| t != old(h).cur ==> hooks_of(*final(h), t) == hooks_of(*old(h), t),
+//@@ loop 1
+        invariant
+            //# hooks-of-others-untouched
+            h.cur == old(h).cur && h.tasks == old(h).tasks && h.queue == old(h).queue && h.links_rev == old(h).links_rev && task.id@ == h.cur
+                && forall|t: Tid| t != old(h).cur ==> hooks_of(*h, t) == hooks_of(*old(h), t),
 //@@ end
 //@@ extract file=acts/src/scheduler/context.rs in="impl Context" item="fn redo_task" name=Context::redo_task props=C02,C05
 //@@ rw R7 `Some ( prev_task )` => `Some(prev_task)`
@@ -169,6 +216,8 @@ impl Context {
 //@@ end
 //@@ extract file=acts/src/scheduler/context.rs in="impl Context" item="fn undo_task" name=Context::undo_task props=C02,C05
 //@@ rw R7 `$V:chain . extend_from_slice ( & $E )` => `vec_extend(&mut $V, $E)`
+//@@ proof at=start
+        proof { reveal(Heap::wf); }
 //@@ spec
         requires old(h).wf(), wf_task(*old(h), **task)
         ensures
@@ -253,6 +302,8 @@ impl Task {
 //@@ rw R7 `self . backs ( & | t | t . node . kind ( ) == NodeKind :: Step && t . node . id ( ) == nid , & mut path_tasks , )` => `self.backs_step(&nid, &mut path_tasks)`
 //@@ rw R8 `EventAction :: Cancel => $B:block` => `EventAction::Cancel => { arm_cancel(self, ctx)?; }`
 //@@ rw R7 `ctx . runtime . cache ( ) . store ( )` => `ctx.runtime.cache().store()`
+//@@ proof at=start
+        proof { reveal(Heap::wf); }
 //@@ spec
         requires old(h).wf(), wf_task(*old(h), **self), old(h).cur == self.id@
         ensures
@@ -317,6 +368,8 @@ impl StatementBatch {
 //@@ rw R6 `task . set_data_with ( | data | data . set ( $K , true ) )` => `task.set_flag($K, true)`
 //@@ rw R7 `& err . ecode == c . on . as_ref ( ) . unwrap ( )` => `str_eq(&err.ecode, c.on.as_ref().unwrap())`
 //@@ rw R7 `format ! ( "{}{}" , consts :: IS_TIMEOUT_PROCESSED_PREFIX , t . on )` => `timeout_key(&t.on)`
+//@@ proof at=start
+        proof { reveal(Heap::wf); lemma_flag_keys(); }
 //@@ spec
         requires old(h).wf()
         ensures
@@ -365,6 +418,8 @@ impl Task {
 //@@ rw R11 `self . hooks . read ( ) . unwrap ( )` => `self.hooks_snapshot()`
 //@@ rw R7 `let default = Vec :: new ( ) ;` => ``
 //@@ rw R7 `hooks . get ( & key ) . unwrap_or ( & default )` => `hooks.list(&key)`
+//@@ proof at=start
+        proof { reveal(Heap::wf); }
 //@@ spec
         requires old(h).wf(), wf_task(*old(h), *self)
         ensures
@@ -435,6 +490,7 @@ pub proof fn lemma_emit_summary(a: Heap, b1: Heap, t: Tid)
     requires a.wf(), a.has(t), handler_summary(Heap { task_events: a.task_events.push((t, a.st(t))), ..a }, b1, t)
     ensures emit_summary(a, Heap { cur: a.cur, ..b1 }, t)
 {
+    reveal(Heap::wf);
     let a1 = Heap { task_events: a.task_events.push((t, a.st(t))), ..a };
     let b = Heap { cur: a.cur, ..b1 };
     assert forall|x: Tid| #[trigger] a.has(x) implies b.has(x) && task_fwd(a.tasks[x], b.tasks[x]) by { assert(a1.has(x)); }
